@@ -94,7 +94,9 @@ class C10(DiffCheck):
             "re-made (connect, bind, re-open), the interrupted claim/release/open/close is re-sent with explicit ids, the rest "
             "of the history runs - compared, canonicalised and with timestamps, against the reference 'no crash, connections "
             "dropped and re-made, timer re-phased at the same instant': the re-sent command's answer, all later frames and the "
-            "channel snapshot after every later op are equal. Non-trivial = a (history, boundary) pair whose boundary is "
+            "channel snapshot after every later op are equal. (5) double faults: after the first recovery the clients come back and "
+            "the history continues; a second death is injected 1-3 effective commits later and (1)-(3) are checked again (quick: one "
+            "per history, thorough: one per chosen boundary). Non-trivial = a (history, boundary) pair whose boundary is "
             "strictly inside a multi-commit op; distinct by hash of (config, script, boundary).")
     level_text = ("Fault enumeration over commit boundaries: for generated histories, process death is injected after chosen "
                   "(quick) or all inner (thorough) effective commits of the real service; recovery, cleanup and resumed-client "
@@ -149,18 +151,125 @@ class C10(DiffCheck):
             classes["profile_" + cfg.get("profile", self.profile)] = 1
             stats.case(script_hash([cfg, script, k]), nt, classes,
                        sample={"cfg": cfg, "boundary_commit": k, "script": script})
+        # double faults: a second death while the clients are coming back
+        dbl = [(k, 1 + (picks[1] + i) % 3) for i, k in enumerate(chosen[:(len(chosen) if tier == "thorough" else 1)])]
+        for k, d2 in dbl:
+            classes = {}
+            try:
+                nt = self.double_fault(wcfg, profile, script, k, d2, classes)
+            except Violation as v:
+                v.payload = {"property": self.id, "cfg": cfg, "script": script, "boundary": k, "second_after": d2}
+                raise
+            stats.case(script_hash([cfg, script, k, "double", d2]), nt, classes,
+                       sample={"cfg": cfg, "boundary_commit": k, "second_crash_after_commits": d2, "script": script})
 
     def replay(self, payload, stats):
         cfg, script, k = payload["cfg"], payload["script"], payload["boundary"]
         profile = self.make_profile(cfg)
         wcfg = {k_: v for k_, v in cfg.items() if k_ != "profile"}
         classes = {}
+        if payload.get("second_after"):
+            try:
+                self.double_fault(wcfg, profile, script, k, payload["second_after"], classes)
+            except Violation as v:
+                v.payload = payload
+                raise
+            stats.case(script_hash([cfg, script, k, "double"]), True, classes, sample=payload)
+            return
         try:
             nt = self.crash_case(wcfg, profile, script, k, classes, True)
         except Violation as v:
             v.payload = payload
             raise
         stats.case(script_hash([cfg, script, k]), nt, classes, sample={"cfg": cfg, "boundary_commit": k, "script": script})
+
+
+    def recover_and_check(self, w, wcfg, where):
+        """(1) restart on the files, (2) uniqueness, (3) nobody returns (on a copy)."""
+        E = float(server_tap.CHANNEL_EXPIRATION_TIME)
+        P = float(server_tap.EXPIRATION_CHECK_PERIOD)
+        crash_t = w.vnow
+        try:
+            tk = w.recover_from_crash()
+        except Crash:
+            raise
+        except Exception as e:
+            raise Violation("%s: the server cannot start on the files left behind: %s: %s" % (where, type(e).__name__, e), sig="C10 cannot restart")
+        if tk.errors:
+            raise Violation("%s: the first expiry sweep after the restart failed: %r" % (where, tk.errors), sig="C10 sweep fails after restart")
+        check_unique(w.snapshot(), where)
+        d2 = tempfile.mkdtemp(prefix="vcheck-c10-", dir=scratch_root())
+        try:
+            for fn in os.listdir(w.dir):
+                shutil.copy(os.path.join(w.dir, fn), os.path.join(d2, fn))
+            w2 = World(dict(wcfg, t0=crash_t - EPOCH), keep_dir=d2)
+            try:
+                if w2.start_tick.errors:
+                    raise Violation("%s: sweep on the recovered files failed: %r" % (where, w2.start_tick.errors), sig="C10 sweep fails after restart")
+                stp = w2.advance(E + 2 * P)
+                if stp.errors:
+                    raise Violation("%s, nobody returns: expiry sweeps fail with %r" % (where, stp.errors), sig="C10 sweep fails after crash")
+                left = {t: r for t, r in stp.after.items() if r}
+                if left:
+                    raise Violation("%s, nobody returns: after expiration + 2 periods the store still holds %r"
+                                    % (where, {t: r[:3] for t, r in left.items()}), sig="C10 store not emptied after crash")
+            finally:
+                w2.close()
+        finally:
+            shutil.rmtree(d2, ignore_errors=True)
+        return tk
+
+    def double_fault(self, wcfg, profile, script, k, d2, classes):
+        """Second process death while the clients of the first one are coming
+        back: after the d2-th effective commit following the first recovery."""
+        script = [({kk: vv for kk, vv in o.items() if kk != "fault"} if o.get("op") == "advance" else o) for o in script]
+        with World(wcfg, uid="crash") as w:
+            w.crash_after = k
+            drv = _mk_driver(w, profile)
+            j = None
+            tr_before = None
+            for i, op in enumerate(script):
+                tr_before = {c: s_.clone() for c, s_ in drv.tr.conns.items()}
+                drv.do(op, force=True)
+                if w.crashed:
+                    j = i
+                    break
+            if j is None:
+                return False
+            op = script[j]
+            where1 = "crash after commit %d (inside op#%d %s)" % (k, j, _s(op))
+            self.recover_and_check(w, wcfg, where1)
+            w.crash_after = w.commit_count + d2
+            cid_map = {}
+            next_cid = [max([c for c in tr_before] + [o.get("c", 0) for o in script]) + 1000]
+            ops = remake_ops(tr_before, cid_map, next_cid)
+            cs_j = tr_before.get(op.get("c")) if "c" in op else None
+            if op["op"] == "send" and op["msg"].get("type") in RESEND and cs_j is not None and cs_j.alive and cs_j.bound:
+                m = explicit(op["msg"], cs_j)
+                if m is not None:
+                    ops.append({"op": "send", "c": cid_map[op["c"]], "msg": m})
+            for o in script[j + 1:]:
+                if "c" in o and o["c"] in cid_map and o["op"] != "connect":
+                    o = dict(o, c=cid_map[o["c"]])
+                ops.append(o)
+            drv2 = _mk_driver(w, profile)
+            drv2.ex.learned = dict(drv.ex.learned)
+            second = None
+            for o in ops:
+                try:
+                    drv2.do(o, force=True)
+                except KeyError:
+                    continue        # an op on a connection that no longer exists in the resumed run
+                if w.crashed:
+                    second = o
+                    break
+            if second is None:
+                classes["double_fault_not_reached"] = 1
+                return False
+            where2 = where1 + ", then a second crash %d commit(s) after the restart (inside %s)" % (d2, _s(second))
+            self.recover_and_check(w, wcfg, where2)
+            classes["double_fault"] = 1
+            return True
 
     # ------------------------------------------------------------------
     def crash_case(self, wcfg, profile, script, k, classes, is_inner):
@@ -348,8 +457,9 @@ class C10(DiffCheck):
             want = [c0.frame(f) for f in orig_answer]
 
             def norm(fs):
+                # `orig` echoes the command, which the reconnecting client writes with explicit ids
                 msgs = sorted((repr(sorted(f.items())) for f in fs if f.get("type") == "message"))
-                return [f for f in fs if f.get("type") != "message"], msgs
+                return [{kk: vv for kk, vv in f.items() if kk != "orig"} for f in fs if f.get("type") != "message"], msgs
             if norm(got) != norm(want):
                 raise Violation("crash after commit %d (inside op#%d %s): the re-sent command was answered %r, without the crash it was answered %r"
                                 % (k, j, _s(op), got, want), sig="C10 re-sent answer differs")
